@@ -144,6 +144,10 @@ class Repo:
                 for mod in self.modules.values():
                     canonicalise(mod.tree)
                     ast.fix_missing_locations(mod.tree)
+                    # (a second pass: forms that only become canonical once the boolean contexts of the expanded expressions
+                    # are marked - `X if c else False` in a test - are reached reliably)
+                    canonicalise(mod.tree)
+                    ast.fix_missing_locations(mod.tree)
                     mod.link_parents()
                 if not os.environ.get("OSACA_SA_NO_SHAPES"):
                     # once more after the expansion: a recorded local may have become recognisable (E14b), or the constant
